@@ -47,7 +47,8 @@ class OrderedSlotRestriction(BaseRestriction, metaclass=ABCMeta):
         used, total = self._slot_stats
         if used > total:
             tainted_items = {}
-            for item in self._container[total:]:
+            # Negative quantity of slots provides no slots at all
+            for item in self._container[max(total, 0):]:
                 # Empty slots are not items, skip them
                 if item is None:
                     continue
